@@ -631,45 +631,60 @@ func rootsAtParam(v ssa.Value, p *ssa.Parameter) bool {
 	return false
 }
 
-// c10RetryAbort (PAIR, retries breaker): a granted retry that is not sent gives its slot back.
-// retryState.retry() takes a slot of the cluster's retries resource when it grants a retry; doRetry then either sends the
-// retry (the slot stays held until the next decision or the end of the request releases it) or gives up (no host / no
-// pool). The give-up path answers the client itself, and processError then drops retryState (a locally answered request
-// is never retried) - after which the end-of-request cleanup no longer sees the slot. Clause: every path through doRetry
-// that does not reach the send (upstreamRequest.appendHeaders) calls cleanUp() or retryState.reset().
+// c10RetryAbort (PAIR, retries breaker): the retry state is never dropped while it may hold a slot.
+// retryState.retry() takes a slot of the cluster's retries resource when it grants a retry and remembers it
+// (retrySlotHeld); reset() gives it back and is idempotent. The end-of-request cleanup releases through s.retryState, so a
+// state that was dropped (s.retryState = nil: a locally answered request is never retried) can never release later.
+// Clause: every store of nil into downStream.retryState is dominated, in the same function, by a reset() on that state
+// (under the usual non-nil test). With it, any path that gives up a granted retry (doRetry without a host, a filter's
+// TerminateStream while the retry is in flight) returns the slot.
 func c10RetryAbort(c *Ctx) {
-	fn := c.M("pkg/proxy", "downStream", "doRetry")
-	if fn == nil {
-		c.Unresolved("C10.PAIR", "downStream.doRetry")
-		return
-	}
-	isSend := func(in ssa.Instruction) bool {
-		ci, ok := in.(ssa.CallInstruction)
-		if !ok {
-			return false
+	pkg := "pkg/proxy"
+	n := 0
+	ord := ordCounter{}
+	for _, fn := range c.PkgFuncs(pkg) {
+		for _, st := range storesToField(fn, ".downStream", "retryState", false) {
+			if !isNilConst(st.Val) {
+				continue
+			}
+			n++
+			key := ord.next(fn, "retry-state-dropped")
+			released := false
+			for _, cs := range callsIn(fn, false, func(cc *ssa.CallCommon) bool {
+				f := cc.StaticCallee()
+				return f != nil && f.Name() == "reset" && strings.Contains(f.String(), "retryState")
+			}) {
+				// the reset sits on the non-nil branch right before the store: it must execute on every path on which the
+				// state is non-nil, i.e. the only way around it is the `retryState == nil` edge
+				if existsPath(fn, cs.Instr, func(x ssa.Instruction) bool { return x == ssa.Instruction(st) }, nil) == nil {
+					continue
+				}
+				bypass := existsPathEdges(fn, nil, func(x ssa.Instruction) bool { return x == ssa.Instruction(st) }, func(x ssa.Instruction) bool { return x == cs.Instr },
+					func(from, to *ssa.BasicBlock) bool {
+						// forbid the edge that asserts retryState == nil (nothing to release there)
+						if ifi, ok := from.Instrs[len(from.Instrs)-1].(*ssa.If); ok {
+							if bo, ok := ifi.Cond.(*ssa.BinOp); ok && isNilConst(bo.Y) {
+								if _, f, _, okf := loadedField(bo.X); okf && f == "retryState" {
+									nilEdge := from.Succs[1]
+									if bo.Op == token.EQL {
+										nilEdge = from.Succs[0]
+									}
+									if to == nilEdge {
+										return false
+									}
+								}
+							}
+						}
+						return true
+					})
+				if bypass == nil {
+					released = true
+				}
+			}
+			c.Check("C10.PAIR", key, st.Pos(), released, "reset() releases a held retry slot before the state is dropped", "downStream.retryState is set to nil without calling reset() first: a retries-breaker slot held by a granted retry (doRetry giving up, TerminateStream while the retry is in flight) can never be released afterwards - the breaker stays tripped while the proxy is idle")
 		}
-		f := ci.Common().StaticCallee()
-		return f != nil && f.Name() == "appendHeaders" && strings.Contains(f.String(), "upstreamRequest")
 	}
-	isRelease := func(in ssa.Instruction) bool {
-		ci, ok := in.(ssa.CallInstruction)
-		if !ok {
-			return false
-		}
-		switch methodName(ci.Common()) {
-		case "cleanUp":
-			return true
-		case "reset":
-			f := ci.Common().StaticCallee()
-			return f != nil && strings.Contains(f.String(), "retryState")
-		}
-		return false
+	if n < 1 {
+		c.Unresolved("C10.PAIR", "stores of nil into downStream.retryState")
 	}
-	nsend := len(instrsWhere(fn, isSend))
-	bad := existsPath(fn, nil, isReturn, func(in ssa.Instruction) bool { return isSend(in) || isRelease(in) })
-	pos := fn.Pos()
-	if bad != nil {
-		pos = bad.Pos()
-	}
-	c.Check("C10.PAIR", funcKey(fn)+":retry-abort-releases-slot", pos, bad == nil && nsend == 1, "every path that does not send the retry releases the retry slot (cleanUp / retryState.reset)", "doRetry can give up without releasing the retries-breaker slot taken when the retry was granted: the locally answered request drops its retry state, the end-of-request cleanup no longer sees the slot, and after max_retries such requests the breaker stays tripped while the proxy is idle")
 }
